@@ -21,7 +21,7 @@ def kFprintfLine (eW : Go.Err) (out : KDest) (_fmt : Bytes) (rc : Bytes) (p : Pr
 
 theorem keygen_convert_loop_refines {ι : Type} (eW : Go.Err) (isX : ι → Bool) (rcOf : ι → Bytes) (out : KDest) (ids : List ι)
     (hX : ∀ id ∈ ids, isX id = true) : ∀ (p : Proc),
-    main_convert_loop1 isX (fun id t => .ok (rcOf id, t)) (kFprintfLine eW) out ids p =
+    keygen_convert_loop1 isX (fun id t => .ok (rcOf id, t)) (kFprintfLine eW) out ids p =
       match kwriteLines out p (ids.map fun id => rcOf id ++ [10]) with
       | (p', true) => .ok (.next p')
       | (_, false) => .error (.panic 1003) := by
@@ -31,7 +31,7 @@ theorem keygen_convert_loop_refines {ι : Type} (eW : Go.Err) (isX : ι → Bool
     intro p
     have hid : isX id = true := hX id (by simp)
     have hrest : ∀ i ∈ rest, isX i = true := fun i hi => hX i (by simp [hi])
-    simp only [main_convert_loop1, kFprintfLine, List.map_cons, kwriteLines, bind, Except.bind, pure, Except.pure, hid]
+    simp only [keygen_convert_loop1, kFprintfLine, List.map_cons, kwriteLines, bind, Except.bind, pure, Except.pure, hid]
     cases hw : kwrite out p (rcOf id ++ [10]) with
     | mk p1 ok =>
       cases ok with
@@ -43,7 +43,7 @@ theorem keygen_convert_loop_refines {ι : Type} (eW : Go.Err) (isX : ι → Bool
 /-- `age-keygen -y`, writing phase: the translated `convert` against the model's `kwriteLines` -/
 theorem keygen_convert_refines {ι : Type} (eW : Go.Err) (rcOf : ι → Bytes) (ids : List ι) (hne : ids ≠ [])
     (inp : Bytes) (out : KDest) (p : Proc) :
-    main_convert (fun _ t => .ok (ids, none, t)) (fun _ => true) (fun id t => .ok (rcOf id, t)) (kFprintfLine eW) inp out p =
+    keygen_convert (fun _ t => .ok (ids, none, t)) (fun _ => true) (fun id t => .ok (rcOf id, t)) (kFprintfLine eW) inp out p =
       match kwriteLines out p (ids.map fun id => rcOf id ++ [10]) with
       | (p', true) => .ok p'
       | (_, false) => .error (.panic 1003) := by
@@ -51,7 +51,7 @@ theorem keygen_convert_refines {ι : Type} (eW : Go.Err) (rcOf : ι → Bytes) (
     cases ids with
     | nil => exact absurd rfl hne
     | cons a r => simp [Go.len]; omega
-  simp only [main_convert, bind, Except.bind, pure, Except.pure, bne_self_eq_false, Bool.false_eq_true, if_false, hlen]
+  simp only [keygen_convert, bind, Except.bind, pure, Except.pure, bne_self_eq_false, Bool.false_eq_true, if_false, hlen]
   rw [keygen_convert_loop_refines eW (fun _ => true) rcOf out ids (fun _ _ => rfl) p]
   cases h : kwriteLines out p (ids.map fun id => rcOf id ++ [10]) with
   | mk p' ok => cases ok <;> rfl
@@ -66,7 +66,7 @@ def kFprintfKey {ι : Type} (eW : Go.Err) (text : Bytes) (out : KDest) (_fmt _ts
     copy of the public key to standard error (whatever becomes of it) leaves the modelled state alone -/
 theorem keygen_generate_refines {ι θ : Type} (eW : Go.Err) (text : Bytes) (k : ι) (fd : Int) (isTerm : Bool) (rc ts : Bytes)
     (now : θ) (e1 : Option Go.Err) (n1 : Int) (stderr out : KDest) (p : Proc) :
-    main_generate (fun t => .ok (k, none, t)) (fun _ t => .ok (fd, t)) (fun _ t => .ok (isTerm, t)) stderr
+    keygen_generate (fun t => .ok (k, none, t)) (fun _ t => .ok (fd, t)) (fun _ t => .ok (isTerm, t)) stderr
         (fun _ t => .ok (rc, t)) (fun _ _ _ t => .ok (n1, e1, t)) (fun _ _ t => .ok (ts, t)) (fun t => .ok (now, t))
         (kFprintfKey eW text) out p =
       match kwriteLines out p [text] with
